@@ -26,8 +26,10 @@ Record Specs (f : nat) : Prop := {
       safe (requeue_query cf f qo st inc df r) s (postA s []);
   sp_end_query : forall qo st r s, InvX (Some qo) s -> In qo (linked s) -> safe (end_query cf f qo st r) s (post s []);
   sp_complete_query : forall qo r s, InvX (Some qo) s -> In qo (linked s) -> safe (complete_query cf f qo r) s (post s []);
-  sp_handle_conn_error : forall co cr st s, Inv s -> In co (st_conns s) -> safe (handle_conn_error cf f co cr st) s (post s []);
-  sp_close_connection : forall co st s, Inv s -> In co (st_conns s) -> safe (close_connection cf f co st) s (post s []);
+  sp_handle_conn_error : forall co cr st s c, Inv s -> cell_of s co = Some (CConn c) ->
+      safe (handle_conn_error cf f co cr st) s (post s [co]);
+  sp_close_connection : forall co st s c, Inv s -> cell_of s co = Some (CConn c) ->
+      safe (close_connection cf f co st) s (post s [co]);
   sp_requeue_conn_queries : forall n co st s c, Inv s -> cell_of s co = Some (CConn c) -> ~ rooted s co ->
       safe (requeue_conn_queries cf f n co st) s
            (fun _ s' => Inv s' /\ Frame s s' [] /\ exists c', cell_of s' co = Some (CConn c') /\ c_queries c' = []);
@@ -283,11 +285,10 @@ Proof.
     intros [] s2 [I2 [F2 Hex]]. split; auto. split; auto. exact (frame_trans _ _ _ _ _ F1 F2).
 Qed.
 
-Lemma close_connection_step f : Specs f -> forall co st s, Inv s -> In co (st_conns s) ->
-  safe (close_connection cf (S f) co st) s (post s []).
+Lemma close_connection_step f : Specs f -> forall co st s c, Inv s -> cell_of s co = Some (CConn c) ->
+  safe (close_connection cf (S f) co st) s (post s [co]).
 Proof.
-  intros IH co st s I Hin. simpl.
-  destruct (inv_conns _ _ I) as [_ Hcc]. destruct (Hcc _ Hin) as [c [Hc Hncl]].
+  intros IH co st s c I Hc. simpl.
   apply safe_bind. eapply safe_get_conn; [exact (inv_heap _ _ I)|exact Hc|].
   apply safe_bind. apply safe_modify.
   destruct (conns_remove_ok None s co I) as [I1 [F1 [Hn1 [Ech1 Ell1]]]].
@@ -311,8 +312,6 @@ Proof.
   assert (Hn3 : ~ In co (st_conns s3)) by (rewrite (ce_conns _ _ E3); exact Hn2).
   assert (Fpre : Frame s s3 []).
   { apply (frame_core_r _ _ _ _ (frame_trans _ _ _ _ _ F1 F2) E3). }
-  assert (Hroot : forall y c0, In y [co] -> cell_of s y = Some c0 -> rooted s y).
-  { intros y c0 [<-|[]] _. right; left. exact Hin. }
   rewrite fx_connread_true. simpl. destruct (c_reading c2) eqn:Er.
   - (* being read: mark closed, read_answers releases it *)
     eapply safe_store; [exact (inv_heap _ _ I3)|exact Hc3|].
@@ -322,30 +321,29 @@ Proof.
     split; [exact I4|].
     assert (F4 : Frame s3 (store_st co (CConn (set_c_closed true c2)) s3) [co]).
     { eapply store_conn_frame; eauto. intros H; contradiction. }
-    eapply frame_shrink; [exact (frame_trans _ _ _ _ _ Fpre F4)|exact Hroot].
+    exact (frame_trans _ _ _ _ _ Fpre F4).
   - eapply safe_free; [exact (inv_heap _ _ I3)|exact Hc3|].
     destruct (free_conn_ok s3 co c2 I3 Hc3 Eq2 Hn3) as [I4 _].
     split; [exact I4|].
     assert (F4 : Frame s3 (free_st co s3) [co]) by (eapply free_conn_frame; eauto).
-    eapply frame_shrink; [exact (frame_trans _ _ _ _ _ Fpre F4)|exact Hroot].
+    exact (frame_trans _ _ _ _ _ Fpre F4).
 Qed.
 
-Lemma handle_conn_error_step f : Specs f -> forall co cr st s, Inv s -> In co (st_conns s) ->
-  safe (handle_conn_error cf (S f) co cr st) s (post s []).
+Lemma handle_conn_error_step f : Specs f -> forall co cr st s c, Inv s -> cell_of s co = Some (CConn c) ->
+  safe (handle_conn_error cf (S f) co cr st) s (post s [co]).
 Proof.
-  intros IH co cr st s I Hin. simpl.
-  destruct (inv_conns _ _ I) as [_ Hcc]. destruct (Hcc _ Hin) as [c [Hc Hncl]].
+  intros IH co cr st s c I Hc. simpl.
   apply safe_bind. eapply safe_get_conn; [exact (inv_heap _ _ I)|exact Hc|].
   assert (G : forall s1, core_eq s s1 -> st_scripts s1 = st_scripts s ->
             safe (let! e := pop in
                   match e with
                   | TX sock st' => if Nat.eqb sock (c_sock c) && zeqb st st' then close_connection cf f co st else fail EDESYNC
-                  | _ => fail EDESYNC end) s1 (post s [])).
+                  | _ => fail EDESYNC end) s1 (post s [co])).
   { intros s1 E1 Es1. apply safe_bind. apply safe_pop. intros e rest Et.
     destruct e; try apply safe_fail. destruct (Nat.eqb sock (c_sock c) && zeqb st st0); [|apply safe_fail].
     set (s2 := set_tape rest s1).
     assert (E2 : core_eq s s2) by (eapply core_eq_trans; [exact E1|apply core_eq_set_tape]).
-    eapply safe_mono; [apply (sp_close_connection _ IH co st s2); [apply (inv_core _ _ _ E2); auto; simpl; exact Es1|rewrite (ce_conns _ _ E2); exact Hin]|].
+    eapply safe_mono; [apply (sp_close_connection _ IH co st s2 c); [apply (inv_core _ _ _ E2); auto; simpl; exact Es1|rewrite (ce_cell _ _ _ E2); exact Hc]|].
     intros [] s3 [I3 F3]. split; auto. exact (frame_core_l _ _ _ _ E2 F3). }
   destruct cr.
   - apply safe_bind. apply safe_expect; [left; reflexivity|]. intros s1 E1 Es1. apply G; auto.
@@ -365,8 +363,10 @@ Proof.
     destruct (Hr _ eq_refl) as [Hin [c [Hc Hncl]]].
     apply safe_bind. eapply safe_get_conn; [exact (inv_heap _ _ I)|exact Hc|].
     destruct (c_queries c); [|apply safe_fail].
-    apply safe_bind. eapply safe_mono; [apply (sp_close_connection _ IH); auto|].
-    intros [] s1 [I1 F1].
+    apply safe_bind. eapply safe_mono; [apply (sp_close_connection _ IH co ARES_SUCCESS s c); auto|].
+    intros [] s1 [I1 F1'].
+    assert (F1 : Frame s s1 []).
+    { eapply frame_shrink; [exact F1'|]. intros y c0 [<-|[]] _. right; left. exact Hin. }
     eapply safe_mono; [apply (sp_cleanup_loop _ IH); auto|].
     intros [] s2 [I2 F2]. split; auto. exact (frame_trans _ _ _ _ _ F1 F2).
   - (* TKE *)
@@ -516,8 +516,10 @@ Proof.
         + apply safe_bind. eapply safe_mono; [apply (sp_end_query _ IH); [apply inv_weaken; exact IB|exact HlB]|].
           intros [] sC [IC FC]. apply safe_ret. split; auto. exact (frame_trans _ _ _ _ _ FB FC).
         + destruct (is_retryable wrc).
-          * apply safe_bind. eapply safe_mono; [apply (sp_handle_conn_error _ IH); auto|].
-            intros [] sC [IC FC]. rewrite fx_revalidate_true.
+          * apply safe_bind. eapply safe_mono; [apply (sp_handle_conn_error _ IH co true wrc sB cA); auto|].
+            intros [] sC [IC FC']. rewrite fx_revalidate_true.
+            assert (FC : Frame sB sC []).
+            { eapply frame_shrink; [exact FC'|]. intros y c0 [<-|[]] _. right; left. exact HinB. }
             assert (FsC : Frame s sC []) by exact (frame_trans _ _ _ _ _ FB FC).
             apply safe_bind. apply safe_get.
             destruct (lookup (q_qid q) (st_byqid sC)) as [qo'|] eqn:Lk.
@@ -972,4 +974,413 @@ Qed.
 Theorem all_specs : forall f, Specs f.
 Proof. induction f; [apply specs_O|apply specs_S; auto]. Qed.
 
+(* ---------------------------------------------------------------------------------- *)
+(* read_answers / process_answer, ares_process_fds, ares_destroy                        *)
+(* ---------------------------------------------------------------------------------- *)
+Definition reading (s : state) (co : obj) : Prop := exists c, cell_of s co = Some (CConn c) /\ c_reading c = true.
+
+Lemma reading_frame s s' L co : reading s co -> Frame s s' L -> reading s' co.
+Proof.
+  intros [c [Hc Hr]] F. destruct (fr_reading _ _ _ F _ _ Hc Hr) as [c' [Hc' [Hr' _]]]. exists c'. auto.
+Qed.
+
+Lemma reading_core s s' co : reading s co -> core_eq s s' -> reading s' co.
+Proof. intros [c [Hc Hr]] E. exists c. rewrite (ce_cell _ _ _ E). auto. Qed.
+
+Lemma process_answer_ok f co qid a rq s : Inv s -> reading s co ->
+  safe (process_answer cf f co qid a rq) s (fun _ s' => Inv s' /\ reading s' co).
+Proof.
+  intros I R. pose proof (all_specs f) as IH. unfold process_answer.
+  apply safe_bind. apply safe_get.
+  destruct (lookup qid (st_byqid s)) as [qo|] eqn:Lk; [|apply safe_fail].
+  destruct (inv_byqid _ _ I _ _ Lk) as [Hl _].
+  destruct (inv_query _ _ I _ Hl) as [q [Hq _]].
+  apply safe_bind. eapply safe_get_query; [exact (inv_heap _ _ I)|exact Hq|].
+  destruct R as [c [Hc Hrd]].
+  apply safe_bind. eapply safe_get_conn; [exact (inv_heap _ _ I)|exact Hc|].
+  destruct (negb _); [apply safe_fail|].
+  destruct (find_tmr (st_tape s)) as [[vrc requeued]|]; [|apply safe_fail].
+  destruct (requeued && zeqb vrc ARES_SUCCESS) eqn:Erq; [apply safe_fail|].
+  (* after ares_cookie_validate *)
+  assert (G : forall rq1 s1, Inv s1 -> reading s1 co -> (requeued = false -> In qo (linked s1)) ->
+            safe (let! e := pop in
+                  match e with
+                  | TMR _ _ =>
+                      if negb (zeqb vrc ARES_SUCCESS) then ret rq1
+                      else let! c0 := get_conn co in
+                           store co (CConn (set_c_queries (remove_nat qo (c_queries c0)) c0));;
+                           match classify cf a (c_tcp c0) with
+                           | DEdns => remove_from_conn qo;; ret (rq1 ++ [qid])
+                           | DTrunc => let! q0 := get_query qo in
+                                       store qo (CQuery (set_q_tcp true q0));;
+                                       remove_from_conn qo;; ret (rq1 ++ [qid])
+                           | DServFail st =>
+                               expect_TS;;
+                               (let! rst := requeue_query cf f qo st true true
+                                              {| r_status := st; r_rec := Some (a_rcode a, a_ancount a, qid) |} in
+                                if zeqb rst ARES_SUCCESS then ret (rq1 ++ [qid]) else ret rq1)
+                           | DFinal =>
+                               expect_TG;;
+                               end_query cf f qo ARES_SUCCESS
+                                 {| r_status := ARES_SUCCESS; r_rec := Some (a_rcode a, a_ancount a, qid) |};;
+                               ret rq1
+                           end
+                  | _ => fail EDESYNC end) s1 (fun _ s' => Inv s' /\ reading s' co)).
+  { intros rq1 s1 I1 R1 Hl1.
+    apply safe_bind. apply safe_pop. intros e rest Et. destruct e; try apply safe_fail.
+    set (s2 := set_tape rest s1).
+    assert (E2 : core_eq s1 s2) by apply core_eq_set_tape.
+    assert (I2 : Inv s2) by (apply (inv_core _ _ _ E2); auto).
+    assert (R2 : reading s2 co) by (apply (reading_core _ _ _ R1 E2)).
+    destruct (negb (zeqb vrc ARES_SUCCESS)) eqn:Ev.
+    - apply safe_ret. auto.
+    - assert (Hrq : requeued = false).
+      { destruct requeued; auto. apply negb_false_iff in Ev. rewrite Ev in Erq. discriminate. }
+      assert (Hl2 : In qo (linked s2)) by (rewrite (ce_linked _ _ E2); auto).
+      destruct R2 as [c2 [Hc2 Hrd2]].
+      apply safe_bind. eapply safe_get_conn; [exact (inv_heap _ _ I2)|exact Hc2|].
+      apply safe_bind. eapply safe_store; [exact (inv_heap _ _ I2)|exact Hc2|].
+      destruct (conn_drop_query_ok s2 co c2 qo I2 Hc2) as [I3 [Ell3 [Hc3 Hsame3]]].
+      set (c3 := set_c_queries (remove_nat qo (c_queries c2)) c2) in *.
+      set (s3 := store_st co (CConn c3) s2) in *.
+      assert (Hl3 : In qo (linked s3)) by (rewrite Ell3; exact Hl2).
+      assert (R3 : reading s3 co) by (exists c3; split; auto).
+      destruct (inv_query _ _ I3 _ Hl3) as [q3 [Hq3 _]].
+      destruct (classify cf a (c_tcp c2)).
+      + (* DEdns *)
+        destruct (remove_from_conn_ok _ _ _ _ I3 (or_intror eq_refl) Hl3 Hq3) as [s4 [E4 [I4 [F4 _]]]].
+        apply safe_bind. eapply safe_of_run; [exact E4|]. apply safe_ret. split; auto.
+        exact (reading_frame _ _ _ _ R3 F4).
+      + (* DTrunc *)
+        apply safe_bind. eapply safe_get_query; [exact (inv_heap _ _ I3)|exact Hq3|].
+        apply safe_bind. eapply safe_store; [exact (inv_heap _ _ I3)|exact Hq3|].
+        destruct (store_query_misc_ok (Some qo) s3 qo q3 (set_q_tcp true q3) I3 Hq3 eq_refl eq_refl eq_refl)
+          as [I4 [F4 [_ [Ell4 [_ Hq4]]]]].
+        set (s4 := store_st qo (CQuery (set_q_tcp true q3)) s3) in *.
+        assert (Hl4 : In qo (linked s4)) by (rewrite Ell4; exact Hl3).
+        destruct (remove_from_conn_ok _ _ _ _ I4 (or_intror eq_refl) Hl4 Hq4) as [s5 [E5 [I5 [F5 _]]]].
+        apply safe_bind. eapply safe_of_run; [exact E5|]. apply safe_ret. split; auto.
+        exact (reading_frame _ _ _ _ (reading_frame _ _ _ _ R3 F4) F5).
+      + (* DServFail *)
+        apply safe_bind. apply safe_expect; [left; reflexivity|]. intros s4 E4 Es4.
+        apply safe_bind.
+        eapply safe_mono; [apply (sp_requeue_query _ IH qo st true true _ s4);
+                           [apply (inv_core _ _ _ E4); auto|rewrite (ce_linked _ _ E4); exact Hl3]|].
+        intros rst s5 [I5 F5].
+        assert (R5 : reading s5 co) by (exact (reading_frame _ _ _ _ (reading_core _ _ _ R3 E4) F5)).
+        destruct (zeqb rst ARES_SUCCESS); apply safe_ret; auto.
+      + (* DFinal *)
+        apply safe_bind. apply safe_expect; [right; left; reflexivity|]. intros s4 E4 Es4.
+        apply safe_bind.
+        eapply safe_mono; [apply (sp_end_query _ IH qo ARES_SUCCESS _ s4);
+                           [apply (inv_core _ _ _ E4); auto|rewrite (ce_linked _ _ E4); exact Hl3]|].
+        intros [] s5 [I5 F5]. apply safe_ret. split; auto.
+        exact (reading_frame _ _ _ _ (reading_core _ _ _ R3 E4) F5). }
+  destruct requeued.
+  - apply safe_bind. apply safe_bind.
+    eapply safe_mono; [apply (sp_requeue_query _ IH qo ARES_SUCCESS false true _ s); [apply inv_weaken; exact I|exact Hl]|].
+    intros st s1 [I1 F1].
+    assert (R1 : reading s1 co) by (apply (reading_frame s s1 [] co); [exists c; auto|exact F1]).
+    destruct (zeqb st ARES_SUCCESS); apply safe_ret; [apply (G (rq ++ [qid]))|apply (G rq)]; auto; discriminate.
+  - apply safe_bind. apply safe_ret. apply (G rq); auto. exists c; auto.
+Qed.
+
+Lemma read_loop_ok f n co rq s : Inv s -> reading s co ->
+  safe (read_loop cf f n co rq) s (fun _ s' => Inv s').
+Proof.
+  pose proof (all_specs f) as IH.
+  revert co rq s. induction n as [|n IHn]; intros co rq s I R; simpl; [apply safe_fail|].
+  destruct R as [c [Hc Hrd]].
+  apply safe_bind. eapply safe_get_conn; [exact (inv_heap _ _ I)|exact Hc|].
+  apply safe_bind. apply safe_peek. apply safe_bind. apply safe_peek2.
+  rewrite fx_connread_true.
+  (* leaving the loop: reading := false *)
+  assert (Leave : safe (store co (CConn (set_c_reading false c));; ret rq) s (fun _ s' => Inv s')).
+  { apply safe_bind. eapply safe_store; [exact (inv_heap _ _ I)|exact Hc|].
+    destruct (store_conn_flags_ok None s co c (set_c_reading false c) I Hc eq_refl eq_refl) as [I1 _].
+    - simpl. intros H. exact (inv_closed _ _ I _ _ Hc H).
+    - simpl. intros H. destruct (inv_conns _ _ I) as [_ Hcc]. destruct (Hcc _ H) as [c0 [Hc0 Hcl]].
+      rewrite Hc in Hc0. inversion Hc0; subst. exact Hcl.
+    - apply safe_ret. exact I1. }
+  destruct (hd_error (st_tape s)) as [e|]; [|exact Leave].
+  destruct e; try exact Leave.
+  - (* TM *)
+    destruct (negb (Nat.eqb sock (c_sock c))); [exact Leave|].
+    apply safe_bind. apply safe_pop. intros e rest Et.
+    set (s1 := set_tape rest s).
+    assert (E1 : core_eq s s1) by apply core_eq_set_tape.
+    assert (I1 : Inv s1) by (apply (inv_core _ _ _ E1); auto).
+    assert (R1 : reading s1 co) by (apply (reading_core s s1 co); [exists c; auto|exact E1]).
+    apply safe_bind. eapply safe_mono; [apply (process_answer_ok f co qid a rq s1 I1 R1)|].
+    intros rq' s2 [I2 [c2 [Hc2 Hrd2]]].
+    apply safe_bind. eapply safe_get_conn; [exact (inv_heap _ _ I2)|exact Hc2|].
+    destruct (c_closed c2) eqn:Ecl.
+    + destruct (inv_closed _ _ I2 _ _ Hc2 Ecl) as [Hn Hq].
+      apply safe_bind. eapply safe_free; [exact (inv_heap _ _ I2)|exact Hc2|].
+      destruct (free_conn_ok s2 co c2 I2 Hc2 Hq Hn) as [I3 _]. apply safe_ret. exact I3.
+    + apply IHn; auto. exists c2; auto.
+  - (* TS: a connection error if TX follows *)
+    destruct (hd_error (tl (st_tape s))) as [e2|]; [|exact Leave].
+    destruct e2; try exact Leave.
+    destruct (negb (Nat.eqb sock (c_sock c))); [exact Leave|].
+    apply safe_bind. eapply safe_store; [exact (inv_heap _ _ I)|exact Hc|].
+    destruct (store_conn_flags_ok None s co c (set_c_reading false c) I Hc eq_refl eq_refl) as [I1 [_ [_ [_ Hc1]]]].
+    { simpl. intros H. exact (inv_closed _ _ I _ _ Hc H). }
+    { simpl. intros H. destruct (inv_conns _ _ I) as [_ Hcc]. destruct (Hcc _ H) as [c0 [Hc0 Hcl]].
+      rewrite Hc in Hc0. inversion Hc0; subst. exact Hcl. }
+    apply safe_bind.
+    eapply safe_mono; [apply (sp_handle_conn_error _ IH co true st _ _ I1 Hc1)|].
+    intros [] s2 [I2 _]. apply safe_ret. exact I2.
+Qed.
+
+Lemma flush_requeue_ok f rq s : Inv s -> safe (flush_requeue cf f rq) s (fun _ s' => Inv s').
+Proof.
+  pose proof (all_specs f) as IH.
+  revert s. induction rq as [|qid rest IHr]; intros s I; simpl; [apply safe_ret; auto|].
+  apply safe_bind. apply safe_get. apply safe_bind.
+  destruct (lookup qid (st_byqid s)) as [qo|] eqn:Lk.
+  - destruct (inv_byqid _ _ I _ _ Lk) as [Hl _].
+    apply safe_bind. eapply safe_mono; [apply (sp_send_query _ IH qo s I Hl)|].
+    intros z s1 [I1 _]. apply safe_ret. apply IHr. exact I1.
+  - apply safe_ret. apply IHr. exact I.
+Qed.
+
+Lemma read_answers_ok f co s c : Inv s -> cell_of s co = Some (CConn c) -> In co (st_conns s) ->
+  safe (read_answers cf f co) s (fun _ s' => Inv s').
+Proof.
+  intros I Hc Hin. unfold read_answers.
+  apply safe_bind. eapply safe_get_conn; [exact (inv_heap _ _ I)|exact Hc|].
+  rewrite fx_connread_true.
+  apply safe_bind. eapply safe_store; [exact (inv_heap _ _ I)|exact Hc|].
+  destruct (store_conn_flags_ok None s co c (set_c_reading true c) I Hc eq_refl eq_refl) as [I1 [_ [_ [_ Hc1]]]].
+  { simpl. intros H. exact (inv_closed _ _ I _ _ Hc H). }
+  { simpl. intros H. destruct (inv_conns _ _ I) as [_ Hcc]. destruct (Hcc _ H) as [c0 [Hc0 Hcl]].
+    rewrite Hc in Hc0. inversion Hc0; subst. exact Hcl. }
+  apply safe_bind. eapply safe_mono; [apply (read_loop_ok f f co [] _ I1)|].
+  - exists (set_c_reading true c). split; auto.
+  - intros rq s2 I2. apply flush_requeue_ok. exact I2.
+Qed.
+
+Lemma destroy_loop_ok f n s : Inv s ->
+  safe (destroy_loop_fixed cf f n) s (fun _ s' => Inv s').
+Proof.
+  pose proof (all_specs f) as IH.
+  revert s. induction n as [|n IHn]; intros s I; simpl; [apply safe_fail|].
+  apply safe_bind. apply safe_get.
+  destruct (st_lists s) as [|[|qo l] r] eqn:El; try (apply safe_ret; exact I).
+  assert (Hl : In qo (linked s)) by (unfold linked; rewrite El; simpl; left; reflexivity).
+  apply safe_bind. eapply safe_mono; [apply (sp_complete_query _ IH qo _ s (inv_weaken _ _ I) Hl)|].
+  intros [] s1 [I1 _]. apply IHn. exact I1.
+Qed.
+
+Lemma destroy_conns_ok f n s : Inv s -> safe (destroy_conns cf f n) s (fun _ s' => Inv s').
+Proof.
+  pose proof (all_specs f) as IH.
+  revert s. induction n as [|n IHn]; intros s I; simpl; [apply safe_fail|].
+  apply safe_bind. apply safe_get.
+  destruct (st_conns s) as [|co0 r] eqn:Ec; [apply safe_ret; exact I|].
+  apply safe_bind. apply safe_peek.
+  destruct (hd_error (st_tape s)) as [e|]; [|apply safe_fail].
+  destruct e; try apply safe_fail.
+  destruct (find_conn_by_sock_ok _ s sock I) as [r0 [E1 Hr]].
+  apply safe_bind. eapply safe_of_run; [exact E1|].
+  destruct r0 as [co|]; [|apply safe_fail].
+  destruct (Hr _ eq_refl) as [Hin [c [Hc Hncl]]].
+  apply safe_bind. eapply safe_mono; [apply (sp_close_connection _ IH co ARES_SUCCESS s c I Hc)|].
+  intros [] s1 [I1 _]. apply IHn. exact I1.
+Qed.
+
+Lemma destroy_ok f s : Inv s -> safe (destroy cf f) s (fun _ s' => Inv s').
+Proof.
+  intros I. unfold destroy.
+  apply safe_bind. apply safe_modify.
+  set (s1 := set_destroying true s).
+  assert (E1 : core_eq s s1) by apply core_eq_set_destroying.
+  assert (I1 : Inv s1) by (apply (inv_core _ _ _ E1); auto).
+  apply safe_bind. apply safe_get. rewrite fx_unlink_true.
+  apply safe_bind. eapply safe_mono; [apply (destroy_loop_ok f f s1 I1)|].
+  intros [] s2 I2. apply safe_bind. apply safe_get.
+  destruct (negb _); [apply safe_fail|]. apply destroy_conns_ok. exact I2.
+Qed.
+
+Lemma process_writes_ok f socks s : Inv s -> safe (process_writes cf f socks) s (fun _ s' => Inv s').
+Proof.
+  pose proof (all_specs f) as IH.
+  revert s. induction socks as [|sock rest IHr]; intros s I; simpl; [apply safe_ret; exact I|].
+  destruct (find_conn_by_sock_ok _ s sock I) as [r0 [E1 Hr]].
+  apply safe_bind. eapply safe_of_run; [exact E1|]. apply safe_bind.
+  destruct r0 as [co|]; [|apply safe_ret; apply IHr; exact I].
+  destruct (Hr _ eq_refl) as [Hin [c [Hc Hncl]]].
+  apply safe_bind. eapply safe_get_conn; [exact (inv_heap _ _ I)|exact Hc|].
+  apply safe_bind. apply safe_pop. intros e rest0 Et. destruct e; try apply safe_fail.
+  set (s1 := set_tape rest0 s).
+  assert (E2 : core_eq s s1) by apply core_eq_set_tape.
+  assert (I1 : Inv s1) by (apply (inv_core _ _ _ E2); auto).
+  destruct (negb (Nat.eqb sock0 sock)); [apply safe_fail|].
+  destruct (zeqb rc ARES_SUCCESS).
+  - apply safe_ret. apply IHr. exact I1.
+  - eapply safe_mono; [apply (sp_handle_conn_error _ IH co true rc s1 c I1); rewrite (ce_cell _ _ _ E2); exact Hc|].
+    intros [] s2 [I2 _]. apply IHr. exact I2.
+Qed.
+
+Lemma process_reads_ok f socks s : Inv s -> safe (process_reads cf f socks) s (fun _ s' => Inv s').
+Proof.
+  revert s. induction socks as [|sock rest IHr]; intros s I; simpl; [apply safe_ret; exact I|].
+  destruct (find_conn_by_sock_ok _ s sock I) as [r0 [E1 Hr]].
+  apply safe_bind. eapply safe_of_run; [exact E1|]. apply safe_bind.
+  destruct r0 as [co|]; [|apply safe_ret; apply IHr; exact I].
+  destruct (Hr _ eq_refl) as [Hin [c [Hc Hncl]]].
+  eapply safe_mono; [apply (read_answers_ok f co s c I Hc Hin)|].
+  intros [] s1 I1. apply IHr. exact I1.
+Qed.
+
+Lemma process_timeouts_ok f n s : Inv s -> safe (process_timeouts cf f n) s (fun _ s' => Inv s').
+Proof.
+  pose proof (all_specs f) as IH.
+  revert s. induction n as [|n IHn]; intros s I; simpl; [apply safe_fail|].
+  apply safe_bind. apply safe_peek. apply safe_bind. apply safe_peek2.
+  destruct (hd_error (st_tape s)) as [e|]; [|apply safe_ret; exact I].
+  destruct e; try (apply safe_ret; exact I).
+  assert (G : safe (let! s0 := get in
+                    match timeout_victim (st_tape s0) with
+                    | Some qid =>
+                        match lookup qid (st_byqid s0) with
+                        | Some qo =>
+                            if negb (memb qo (st_bytmo s0)) then fail EDESYNC
+                            else let! q := get_query qo in
+                                 match q_conn q with
+                                 | Some co => let! _ := get_conn co in ret tt
+                                 | None => fail EINTERNAL end;;
+                                 expect_TS;;
+                                 (let! _ := requeue_query cf f qo ARES_ETIMEOUT true false (res ARES_ETIMEOUT) in
+                                  process_timeouts cf f n)
+                        | None => fail EDESYNC end
+                    | None => fail EDESYNC end) s (fun _ s' => Inv s')).
+  { apply safe_bind. apply safe_get.
+    destruct (timeout_victim (st_tape s)) as [qid|]; [|apply safe_fail].
+    destruct (lookup qid (st_byqid s)) as [qo|] eqn:Lk; [|apply safe_fail].
+    destruct (memb qo (st_bytmo s)) eqn:Mb; simpl; [|apply safe_fail].
+    apply memb_In in Mb.
+    destruct (inv_bytmo _ _ I _ Mb) as [Hl [q [co [c [Hq [Hqc [Hc _]]]]]]].
+    apply safe_bind. eapply safe_get_query; [exact (inv_heap _ _ I)|exact Hq|].
+    rewrite Hqc. apply safe_bind. apply safe_bind. eapply safe_get_conn; [exact (inv_heap _ _ I)|exact Hc|].
+    apply safe_ret. apply safe_bind. apply safe_expect; [left; reflexivity|]. intros s1 E1 Es1.
+    apply safe_bind.
+    eapply safe_mono; [apply (sp_requeue_query _ IH qo ARES_ETIMEOUT true false _ s1);
+                       [apply inv_weaken; apply (inv_core _ _ _ E1); auto|rewrite (ce_linked _ _ E1); exact Hl]|].
+    intros z s2 [I2 _]. apply IHn. exact I2. }
+  destruct (hd_error (tl (st_tape s))) as [e2|]; [|exact G].
+  destruct e2; try exact G. apply safe_ret. exact I.
+Qed.
+
+Lemma process_fds_ok f w r s : Inv s -> safe (process_fds cf f w r) s (fun _ s' => Inv s').
+Proof.
+  intros I. pose proof (all_specs f) as IH. unfold process_fds.
+  apply safe_bind. eapply safe_mono; [apply process_writes_ok; exact I|]. intros [] s1 I1.
+  apply safe_bind. eapply safe_mono; [apply process_reads_ok; exact I1|]. intros [] s2 I2.
+  apply safe_bind. eapply safe_mono; [apply (sp_check_cleanup _ IH s2 I2)|]. intros [] s3 [I3 _].
+  apply process_timeouts_ok. exact I3.
+Qed.
+
 End Fixed.
+
+(* ---------------------------------------------------------------------------------- *)
+(* Histories                                                                           *)
+(* ---------------------------------------------------------------------------------- *)
+Definition nohost_input (i : input) : Prop :=
+  match i with IApi c => nohost_call c | IOnCb _ c => nohost_call c | _ => True end.
+
+Lemma init_inv : Inv init_state.
+Proof.
+  constructor; simpl; unfold cell_of, linked, chain; simpl.
+  - split; [intros o c H; discriminate|intros o []].
+  - constructor.
+  - intros qo [].
+  - intros qid qo H; discriminate.
+  - intros qo [].
+  - intros co c qo H; discriminate.
+  - split; [constructor|intros co []].
+  - intros co c H; discriminate.
+  - split; [constructor|intros o []].
+  - intros o h H; discriminate.
+  - intros t l c H; discriminate.
+Qed.
+
+Lemma add_script_inv t c s : Inv s -> nohost_call c -> Inv (add_script t c s).
+Proof.
+  intros I Hc. unfold add_script. destruct (delivered t s); auto.
+  apply (ce_inv None s _ (core_eq_set_scripts _ s)); auto. simpl.
+  intros t' l c' Hl Hin. destruct (Nat.eqb t' t) eqn:E.
+  - inversion Hl; subst. destruct (lookup t (st_scripts s)) as [l0|] eqn:L0.
+    + apply in_app_or in Hin. destruct Hin as [Hin|[<-|[]]]; auto. exact (inv_scripts _ _ I _ _ _ L0 Hin).
+    + destruct Hin as [<-|[]]. auto.
+  - rewrite lookup_remove_key, E in Hl. exact (inv_scripts _ _ I _ _ _ Hl Hin).
+Qed.
+
+Lemma step_ok cf fuel i tape s : cf_fix cf = all_fixed -> Inv s -> nohost_input i ->
+  safe (step cf fuel i tape) s (fun _ s' => Inv s').
+Proof.
+  intros Hfix I Hi. pose proof (all_specs cf Hfix fuel) as IH. unfold step.
+  apply safe_bind. apply safe_modify.
+  set (s1 := set_tape tape s).
+  assert (E1 : core_eq s s1) by apply core_eq_set_tape.
+  assert (I1 : Inv s1) by (apply (inv_core _ _ _ E1); auto).
+  assert (Fin : forall s2, Inv s2 ->
+            safe (let! s0 := get in match st_tape s0 with [] => ret tt | _ :: _ => fail EDESYNC end) s2 (fun _ s' => Inv s')).
+  { intros s2 I2. apply safe_bind. apply safe_get. destruct (st_tape s2); [apply safe_ret; exact I2|apply safe_fail]. }
+  apply safe_bind.
+  destruct i as [c|t c|w r|].
+  - (* IApi *)
+    assert (Dflt : safe (api cf fuel c) s1 (fun _ s0 => safe (let! s3 := get in match st_tape s3 with [] => ret tt | _ :: _ => fail EDESYNC end) s0 (fun _ s' => Inv s'))).
+    { eapply safe_mono; [apply (sp_api _ _ IH c s1 I1 Hi)|]. intros [] s2 [I2 _]. apply Fin. exact I2. }
+    destruct c; try exact Dflt.
+    (* top-level ares_cancel *)
+    apply safe_bind. apply safe_emit.
+    set (s2 := set_trace (EvCancelBegin :: st_trace s1) s1).
+    assert (E2 : core_eq s1 s2) by apply core_eq_set_trace.
+    apply safe_bind. eapply safe_mono; [apply (sp_cancel _ _ IH s2); apply (inv_core _ _ _ E2); auto|].
+    intros [] s3 [I3 _]. apply safe_emit.
+    apply Fin. apply (inv_core _ _ _ (core_eq_set_trace _ s3)); auto.
+  - (* IOnCb *)
+    apply safe_modify. apply Fin. apply add_script_inv; auto.
+  - (* IProc *)
+    eapply safe_mono; [apply (process_fds_ok cf Hfix fuel w r s1 I1)|]. intros [] s2 I2. apply Fin. exact I2.
+  - (* IDestroy *)
+    apply safe_bind. apply safe_emit.
+    set (s2 := set_trace (EvDestroyBegin :: st_trace s1) s1).
+    assert (E2 : core_eq s1 s2) by apply core_eq_set_trace.
+    apply safe_bind. eapply safe_mono; [apply (destroy_ok cf Hfix fuel s2); apply (inv_core _ _ _ E2); auto|].
+    intros [] s3 I3. apply safe_emit.
+    apply Fin. apply (inv_core _ _ _ (core_eq_set_trace _ s3)); auto.
+Qed.
+
+Lemma run_from_ok cf fuel h s : cf_fix cf = all_fixed -> Inv s -> Forall (fun it => nohost_input (fst it)) h ->
+  safe (run_from cf fuel h) s (fun _ s' => Inv s').
+Proof.
+  intros Hfix. revert s. induction h as [|[i tape] rest IHh]; intros s I Hh; simpl; [apply safe_ret; exact I|].
+  inversion Hh; subst.
+  apply safe_bind. apply safe_get.
+  destruct (st_destroying s); [apply safe_ret; exact I|].
+  apply safe_bind. eapply safe_mono; [apply (step_ok cf fuel i tape s Hfix I); auto|].
+  intros [] s1 I1. apply IHh; auto.
+Qed.
+
+(* C01_no_ub, for histories that do not use getaddrinfo/gethostbyname *)
+Theorem run_no_ub cf fuel h final :
+  cf_fix cf = all_fixed -> Forall (fun it => nohost_input (fst it)) h ->
+  forall k, run cf fuel h final <> UB k.
+Proof.
+  intros Hfix Hh k. unfold run.
+  assert (S : safe (run_from cf fuel h;;
+                    (let! s := get in (if st_destroying s then ret tt else step cf fuel IDestroy final);; emit EvEnd))
+                   init_state (fun _ _ => True)).
+  { apply safe_bind. eapply safe_mono; [apply (run_from_ok cf fuel h init_state Hfix init_inv Hh)|].
+    intros [] s1 I1. apply safe_bind. apply safe_get. apply safe_bind.
+    - destruct (st_destroying s1).
+      + apply safe_ret. apply safe_emit. exact Logic.I.
+      + eapply safe_mono; [apply (step_ok cf fuel IDestroy final s1 Hfix I1 Logic.I)|].
+        intros [] s2 I2. apply safe_emit. exact Logic.I. }
+  unfold safe in S.
+  destruct ((run_from cf fuel h;; (let! s := get in (if st_destroying s then ret tt else step cf fuel IDestroy final);; emit EvEnd)) init_state)
+    as [[a s']|e|k']; try discriminate. destruct S.
+Qed.
